@@ -50,11 +50,12 @@ Hypothesis HFend : fix_end O = true.
 Hypothesis HFsep : fix_sep O = true.
 Hypothesis HFb64 : fix_b64 C = true.
 Hypothesis Hind : 0 <= indent F.
-Hypothesis Hnw : 5 <= nw.
-Hypothesis HR : nw + 6 <= RSV C.       (* the reserve covers a name's delimiters, a number and the separators *)
+Hypothesis Hnw : 6 <= nw.
+Hypothesis HR : nw + 5 <= RSV C.       (* exactly what the longest run needs: quote, colon, space, the number with its
+                                          terminator, comma, newline, and the terminator a flush stores *)
 
 Let R := RSV C.
-Let B := nw + 3.                        (* ctx->p - ctx->pflush after any value is at most B *)
+Let B := nw + 2.                        (* ctx->p - ctx->pflush after any value is at most B *)
 
 (* ---------------------------------------------------------------- single steps, continuation style *)
 Lemma chk_char s c t : s + 1 <= R -> chk C s (PChar c :: t) = chk C (s + 1) t.
@@ -174,7 +175,7 @@ Proof.
     rewrite E2. exists s2. split; [lia|reflexivity].
 Qed.
 
-Lemma enum_chk r txt s t : len txt + 1 <= nw -> 0 <= s <= 4 ->
+Lemma enum_chk r txt s t : len txt + 1 <= nw -> 0 <= s <= 3 ->
   exists s', 0 <= s' <= B /\ chk C s (enum_ops F r txt ++ t) = chk C s' t.
 Proof.
   intros Hw Hs. pose proof (len_nonneg txt). unfold enum_ops.
@@ -210,7 +211,7 @@ Proof.
 Qed.
 
 (* ---------------------------------------------------------------- values *)
-Definition entry (v : value) : Z := if is_fieldlike v then B + 1 else if is_vec v then 3 else 4.
+Definition entry (v : value) : Z := if is_fieldlike v then B + 1 else if is_vec v || is_numlike v then 3 else 4.
 Definition exit (v : value) : Z := if is_struct v then 1 else B.
 
 Definition PV (v : value) : Prop :=
@@ -242,21 +243,21 @@ Lemma value_chk : forall v, PV v.
 Proof.
   induction v as [txt|r txt|str|enc|fs IHfs|fs IHfs|k es IHes| | |n v IHv|n ty pr m IHty IHm] using value_ind2; unfold PV; intros Hw lvl ttl s t Hl Hs; cbn [vops].
   - (* VNum *)
-    cbn [wfv] in Hw. unfold entry in Hs. cbn [is_fieldlike is_vec] in Hs. pose proof (len_nonneg txt).
+    cbn [wfv] in Hw. unfold entry in Hs. cbn [is_fieldlike is_vec is_numlike orb] in Hs. pose proof (len_nonneg txt).
     cbn [app]. rewrite chk_num by (unfold R, B in *; lia). exists (s + len txt). split; [unfold exit, B; cbn; lia|reflexivity].
   - (* VEnum *)
-    cbn [wfv] in Hw. unfold entry in Hs. cbn [is_fieldlike is_vec] in Hs.
+    cbn [wfv] in Hw. unfold entry in Hs. cbn [is_fieldlike is_vec is_numlike orb] in Hs.
     destruct (enum_chk r txt s t ltac:(lia) Hs) as (s' & H' & E'). exists s'. split; [exact H'|exact E'].
   - (* VStr *)
-    unfold entry in Hs. cbn [is_fieldlike is_vec] in Hs. cbn [app].
+    unfold entry in Hs. cbn [is_fieldlike is_vec is_numlike orb] in Hs. cbn [app].
     rewrite chk_char by (unfold R, B in *; lia). rewrite <- app_assoc.
     rewrite str_chk by (unfold R, B in *; lia). cbn [app]. rewrite chk_char by (unfold R, B in *; lia).
     exists 1. split; [unfold exit, B; cbn; lia|reflexivity].
   - (* VB64 *)
-    unfold entry in Hs. cbn [is_fieldlike is_vec] in Hs. cbn [app].
+    unfold entry in Hs. cbn [is_fieldlike is_vec is_numlike orb] in Hs. cbn [app].
     rewrite chk_b64 by (unfold R, B in *; lia). exists 4. split; [unfold exit, B; cbn; lia|reflexivity].
   - (* VTable *)
-    unfold entry in Hs. cbn [is_fieldlike is_vec] in Hs. cbn [wfv] in Hw.
+    unfold entry in Hs. cbn [is_fieldlike is_vec is_numlike orb] in Hs. cbn [wfv] in Hw.
     destruct (ttl - 1 =? 0).
     + cbn [app]. rewrite chk_err. exists s. split; [unfold exit, B; cbn; lia|reflexivity].
     + cbn [app]. rewrite chk_char by (unfold R, B in *; lia). rewrite <- app_assoc.
@@ -265,14 +266,14 @@ Proof.
       rewrite E1. rewrite end_chk by (unfold R, B in *; lia).
       exists 1. split; [unfold exit, B; cbn; lia|reflexivity].
   - (* VStruct *)
-    unfold entry in Hs. cbn [is_fieldlike is_vec] in Hs. cbn [wfv] in Hw.
+    unfold entry in Hs. cbn [is_fieldlike is_vec is_numlike orb] in Hs. cbn [wfv] in Hw.
     cbn [app]. rewrite chk_char by (unfold R, B in *; lia). rewrite <- app_assoc.
     destruct (fields_chk fs (lvl + 1) ttl IHfs Hw ltac:(lia) (s + 1) (end_ops O F lvl 125 ++ t) ltac:(unfold B; lia))
       as (s1 & H1 & E1).
     rewrite E1. rewrite end_chk by (unfold R, B in *; lia).
     exists 1. split; [unfold exit; cbn; lia|reflexivity].
   - (* VVec *)
-    unfold entry in Hs. cbn [is_fieldlike is_vec] in Hs. cbn [wfv] in Hw.
+    unfold entry in Hs. cbn [is_fieldlike is_vec is_numlike orb] in Hs. cbn [wfv] in Hw.
     cbn [app]. rewrite chk_char by (unfold R, B in *; lia). rewrite <- app_assoc.
     apply forallb_Forall in Hw.
     assert (G : exists s1, 0 <= s1 <= B /\
@@ -290,7 +291,7 @@ Proof.
                       ltac:(destruct first; unfold R, B in *; lia)) as (s1 & H2 & E1).
           rewrite E1. rewrite nl_chk by (destruct first; unfold R, B in *; lia).
           destruct (IHes e He Hwf (lvl + 1) ttl 0 t0 ltac:(lia)) as (s2 & H3 & E2).
-          { unfold entry. destruct (is_fieldlike e), (is_vec e); unfold B; lia. }
+          { unfold entry. destruct (is_fieldlike e), (is_vec e), (is_numlike e); cbn [orb]; unfold B; lia. }
           exists s2. split; [unfold exit in H3; destruct (is_struct e); lia|exact E2].
         + exists s1. split; [unfold B in *; lia|exact E1].
       - (* separator followed by a flush check *)
@@ -298,9 +299,9 @@ Proof.
           with (first := true) (s := s + 1) (t := end_ops O F lvl 93 ++ t) as (s1 & H1 & E1); try (unfold B; lia).
         + rewrite Forall_forall in *. intros e He first s0 t0 H0 H1.
           specialize (Hw e He). apply andb_true_iff in Hw. destruct Hw as [Hw Hwf].
-          apply andb_true_iff in Hw. destruct Hw as [Hw _]. apply andb_true_iff in Hw. destruct Hw as [Hnf Hnv].
+          apply andb_true_iff in Hw. destruct Hw as [Hw Hnn]. apply andb_true_iff in Hw. destruct Hw as [Hnf Hnv].
           unfold sep_ops. rewrite HFsep. rewrite <- !app_assoc.
-          assert (Hen : entry e = 4) by (unfold entry; destruct (is_fieldlike e), (is_vec e); try discriminate; reflexivity).
+          assert (Hen : entry e = 4) by (unfold entry; destruct (is_fieldlike e), (is_vec e), (is_numlike e); try discriminate; reflexivity).
           destruct first; cbn [comma negb andb app].
           * destruct (IHes e He Hwf (lvl + 1) ttl s0 t0 ltac:(lia) ltac:(lia)) as (s2 & H3 & E2).
             exists s2. split; [unfold exit in H3; destruct (is_struct e); unfold B in *; lia|exact E2].
@@ -315,7 +316,7 @@ Proof.
           specialize (Hw e He). apply andb_true_iff in Hw. destruct Hw as [Hw Hwf].
           apply andb_true_iff in Hw. destruct Hw as [Hw Hst]. apply andb_true_iff in Hw. destruct Hw as [Hnf Hnv].
           unfold sep_ops. rewrite <- !app_assoc. rewrite app_nil_l.
-          assert (Hen : entry e = 4) by (unfold entry; destruct (is_fieldlike e), (is_vec e); try discriminate; reflexivity).
+          assert (Hen : entry e = 4) by (unfold entry; destruct e; try discriminate; reflexivity).
           destruct (comma_chk first s0 (vops O F (lvl + 1) ttl e ++ t0) H0
                       ltac:(destruct first; unfold R, B in *; lia)) as (s1 & H2 & E1).
           rewrite E1.
@@ -325,10 +326,10 @@ Proof.
     destruct G as (s1 & H1 & E1). rewrite E1. rewrite end_chk by (unfold R, B in *; lia).
     exists 1. split; [unfold exit, B; cbn; lia|reflexivity].
   - (* VNull *)
-    unfold entry in Hs. cbn [is_fieldlike is_vec] in Hs. cbn [app].
+    unfold entry in Hs. cbn [is_fieldlike is_vec is_numlike orb] in Hs. cbn [app].
     rewrite !chk_char by (unfold R, B in *; lia). exists (s + 1 + 1 + 1 + 1). split; [unfold exit, B; cbn; lia|reflexivity].
   - (* VSkip *)
-    unfold entry in Hs. cbn [is_fieldlike is_vec] in Hs. cbn [app].
+    unfold entry in Hs. cbn [is_fieldlike is_vec is_numlike orb] in Hs. cbn [app].
     exists s. split; [unfold exit, B; cbn; lia|reflexivity].
   - (* VField *)
     unfold entry in Hs. cbn [is_fieldlike] in Hs. cbn [wfv] in Hw.
@@ -337,7 +338,7 @@ Proof.
     destruct (name_chk s lvl n (vops O F lvl ttl v ++ t) ltac:(lia) ltac:(unfold R, B in *; lia) Hl) as (s1 & H1 & E1).
     rewrite E1.
     destruct (IHv Hwf lvl ttl s1 t Hl) as (s2 & H2 & E2).
-    { unfold entry. destruct (is_fieldlike v); [discriminate|]. destruct (is_vec v); lia. }
+    { unfold entry. destruct (is_fieldlike v); [discriminate|]. destruct (is_vec v || is_numlike v); lia. }
     exists s2. split; [unfold exit in *; cbn [is_struct]; destruct (is_struct v); unfold B in *; lia|exact E2].
   - (* VUnionField *)
     unfold entry in Hs. cbn [is_fieldlike] in Hs. cbn [wfv] in Hw.
@@ -357,14 +358,14 @@ Proof.
     rewrite E3.
     destruct (IHty ltac:(assumption) lvl ttl s3 ((if pr then PChar 44 :: name_ops F lvl n ++ vops O F lvl ttl m else []) ++ t) Hl)
       as (s4 & H4' & E4).
-    { unfold entry. destruct (is_fieldlike ty); [discriminate|]. destruct (is_vec ty); [discriminate|lia]. }
+    { unfold entry. destruct (is_fieldlike ty); [discriminate|]. destruct (is_vec ty || is_numlike ty); lia. }
     rewrite E4. assert (s4 <= B) by (unfold exit in H4'; destruct (is_struct ty); unfold B in *; lia).
     destruct pr.
     + cbn [app]. rewrite chk_char by (unfold R, B in *; lia). rewrite <- app_assoc.
       destruct (name_chk (s4 + 1) lvl n (vops O F lvl ttl m ++ t) ltac:(lia) ltac:(unfold R, B in *; lia) Hl) as (s5 & H5' & E5).
       rewrite E5.
       destruct (IHm ltac:(assumption) lvl ttl s5 t Hl) as (s6 & H6' & E6).
-      { unfold entry. destruct (is_fieldlike m); [discriminate|]. destruct (is_vec m); [discriminate|lia]. }
+      { unfold entry. destruct (is_fieldlike m); [discriminate|]. destruct (is_vec m || is_numlike m); lia. }
       exists s6. split; [unfold exit in *; cbn [is_struct]; destruct (is_struct m); unfold B in *; lia|exact E6].
     + cbn [app]. exists s4. split; [unfold exit; cbn [is_struct]; lia|reflexivity].
 Qed.
@@ -375,7 +376,7 @@ Theorem root_chk v : wfv nw v = true -> is_fieldlike v = false ->
 Proof.
   intros Hw Hf. unfold root_ops.
   destruct (value_chk v Hw 0 PRINT_MAX_LEVELS 0 (last_ops F) ltac:(lia)) as (s1 & H1 & E1).
-  { unfold entry. rewrite Hf. destruct (is_vec v); lia. }
+  { unfold entry. rewrite Hf. destruct (is_vec v || is_numlike v); lia. }
   rewrite E1. assert (s1 <= B) by (unfold exit in H1; destruct (is_struct v); unfold B in *; lia).
   unfold last_ops. destruct (pretty F); cbn [app].
   - rewrite chk_char by (unfold R, B in *; lia). rewrite chk_flushall by (unfold R, B in *; lia). eexists; reflexivity.
